@@ -130,4 +130,38 @@ Section Generic.
     revert prev. induction gs as [|g r IH]; intros prev Hs; cbn [last_pass fold_left sum_iv]; [lia|].
     cbn [spaced] in Hs. destruct Hs as [H1 H2]. specialize (IH _ H2). unfold last_pass in IH. lia.
   Qed.
+
+  (* ---- any window of the history, not only the whole of it ---- *)
+  Lemma spaced_app prev a b : spaced iv prev (a ++ b) <-> spaced iv prev a /\ spaced iv (last_pass prev a) b.
+  Proof.
+    revert prev. induction a as [|g r IH]; intros prev; cbn [app spaced last_pass fold_left].
+    - tauto.
+    - rewrite IH. unfold last_pass. tauto.
+  Qed.
+
+  (* every contiguous run `mid` of admitted requests following an admitted request g takes at
+     least the sum of its intervals, measured from g's pass time *)
+  Lemma spaced_window prev pre g mid post :
+    spaced iv prev (pre ++ g :: mid ++ post) ->
+    last_pass (g_pass g) mid - g_pass g >= sum_iv mid.
+  Proof.
+    intros Hs. apply spaced_app in Hs. destruct Hs as [_ Hs]. cbn [spaced] in Hs. destruct Hs as [_ Hs].
+    apply spaced_app in Hs. destruct Hs as [Hs _]. apply spaced_total. exact Hs.
+  Qed.
+
+  Lemma sum_iv_ge_count d gs : Forall (fun g => d <= iv (g_b g)) gs -> d * Z.of_nat (length gs) <= sum_iv gs.
+  Proof.
+    induction 1 as [|g r Hg _ IH]; cbn [length sum_iv]; [lia|]. rewrite Nat2Z.inj_succ. lia.
+  Qed.
+
+  (* rate bound over any window: if every request of the run needs at least d ns, then at most
+     span/d of them pass within a span *)
+  Lemma window_count d last ops pre g mid post :
+    grants last ops = pre ++ g :: mid ++ post ->
+    Forall (fun h => d <= iv (g_b h)) mid ->
+    d * Z.of_nat (length mid) <= last_pass (g_pass g) mid - g_pass g.
+  Proof.
+    intros He Hf. pose proof (proj1 (spacing last ops)) as Hs. rewrite He in Hs.
+    apply spaced_window in Hs. pose proof (sum_iv_ge_count d mid Hf). lia.
+  Qed.
 End Generic.
